@@ -45,7 +45,14 @@ def py_isinstance(interp, v, T):
     if isinstance(v, Opaque):
         raise OutOfSubset("isinstance on an opaque value (%s)" % v.label)
     if isinstance(v, SRef):
-        raise OutOfSubset("isinstance on an opaque reference")
+        # opaque element references: the harness states which classes they are instances of
+        classes = CTX.ghost.get("sref_classes")
+        if classes is None:
+            raise OutOfSubset("isinstance on an opaque reference")
+        T2 = getattr(T, "pytype", None) or T
+        if isinstance(T2, ClassVal):
+            return any(c.name in classes for c in [T2]) or any(n in classes and T2 in _mro_by_name(interp, T2, n) for n in ())
+        return False
     if T is int:
         return isinstance(v, (int, SInt, SBool, SBV))
     if T is bool:
@@ -82,6 +89,10 @@ def py_isinstance(interp, v, T):
     if isinstance(T, type):
         return isinstance(v, T)
     raise OutOfSubset("isinstance against %r" % (T,))
+
+
+def _mro_by_name(interp, T, n):
+    return []
 
 
 def _len(interp, v):
@@ -537,18 +548,25 @@ def make_host_modules(interp):
         return acc
 
     def chain_(i, args, kwargs):
-        out = []
-        sym = []
+        """itertools.chain: concatenation of the argument iterables (symbolic lists are concatenated
+        symbolically)"""
+        acc = VList([])
         for a in args:
             items = i.iterate(a)
-            if items is None:
-                # chain over array objects whose data is symbolic: keep structure
-                sym.append(a)
+            if items is not None:
+                acc = acc.concat(VList(items))
+                continue
+            src = a
+            if isinstance(a, VObj):
+                m, _ = a.cls.lookup("__iter__")
+                if m is None:
+                    raise PyRaise(TypeError("object is not iterable"))
+                src = i.call(BoundMethod(m, a), [], {})
+            if isinstance(src, VList):
+                acc = acc.concat(src)
             else:
-                out.extend(items)
-        if sym:
-            return _Chain(args)
-        return IterVal(out)
+                raise OutOfSubset("chain over %r" % (src,))
+        return acc
 
     def deepcopy_(i, args, kwargs):
         return _deepcopy(args[0])
